@@ -153,7 +153,7 @@ def report(v, rows, bad, base, binary):
             f.write(json.dumps({"id": rows[ln - 1]["id"], "key": exp[ln]["key"], "desc": exp[ln]["desc"]}) + "\n")
     texts = os.path.join(d, "texts.ndjson")
     vlib.run_driver(binary, ["scenconfig", "-cases", sub, "-out", os.path.join(d, "again.ndjson"), "-texts", texts, "-allstyles"])
-    txt = vlib.read_ndjson(texts)
+    txt = {t["id"]: t["texts"] for t in vlib.read_ndjson(texts)}
     for i, ln in enumerate(lns):
         row, e = rows[ln - 1], exp[ln]
         invs = sorted(bad[ln])
@@ -171,12 +171,13 @@ def report(v, rows, bad, base, binary):
                     detail.append("%s: %s" % (st, "; ".join(df[:6])))
         sig = "kind=%s inv=%s case=%s" % (row["key"]["k"], "+".join(invs), cls)
         v.violation(sig,
-                    "case %d (%s, %s): TraceScenarioConfig invariant(s) %s fail: %s" % (
-                        row["id"], row["key"]["k"], cls, ",".join(invs), " | ".join(detail)[:1500] or "see replay"),
+                    "case %d (%s, %s; file system delivered %s): TraceScenarioConfig invariant(s) %s fail: %s" % (
+                        row["id"], row["key"]["k"], cls, row.get("fs", {}), ",".join(invs),
+                        " | ".join(detail)[:1500] or "see replay"),
                     replay_obj={"id": row["id"], "seed": vlib.seed(), "key": row["key"], "invariants": invs, "desc": e["desc"],
                                 "expected": {"cfg": e["cfg"], "ammo": e["ammo"]},
-                                "observed": {st: resolve(row["out"], st) for st in row["out"]},
-                                "rendered": txt[i]["texts"]},
+                                "observed": {st: resolve(row["out"], st) for st in row["out"]}, "fs": row.get("fs", {}),
+                                "rendered": txt.get(row["id"], {})},
                     replay_name="case_%s_%d.json" % (row["key"]["k"], row["id"]))
     for ln in sorted(bad)[40:]:
         row = rows[ln - 1]
@@ -280,6 +281,9 @@ def run(tier, v):
     kinds = collections.Counter(r_["key"]["k"] for r_ in rows)
     by_style = collections.Counter(st for r_ in rows for st in r_["out"])
     nrend = sum(by_style.values())
+    by_fs = collections.Counter(m for r_ in rows for m in r_.get("fs", {}).values())
+    if len(by_fs) < 7 or min(by_fs.values()) < 200:
+        raise vlib.MachineryError("driver did not rotate the file-system read modes: %s" % dict(by_fs))
     if min(by_style.get(st, 0) for st in STYLES) != len(rows) or min(by_style.get(st, 0) for st in EXTRA) < 50:
         raise vlib.MachineryError("driver rendered too few styles: %s" % dict(by_style))
     distinct = len({json.dumps(g["desc"], sort_keys=True) for g in gen})
@@ -287,12 +291,13 @@ def run(tier, v):
     # a few cases written out, with the head of two of their renderings
     picks = rows[5::max(1, len(rows) // 4)][:4]
     sub, tx = os.path.join(d, "sample_cases.ndjson"), os.path.join(d, "sample_texts.ndjson")
-    vlib.write_ndjson(sub, [gen[r_["id"] - 1] for r_ in picks])
+    vlib.write_ndjson(sub, [dict(gen[r_["id"] - 1], id=r_["id"]) for r_ in picks])
     vlib.run_driver(binary, ["scenconfig", "-cases", sub, "-out", os.path.join(d, "sample_out.ndjson"), "-texts", tx,
                              "-allstyles"])
-    texts = vlib.read_ndjson(tx)
+    texts = {t["id"]: t for t in vlib.read_ndjson(tx)}
     samples = []
-    for r_, t in zip(picks, texts):
+    for r_ in picks:
+        t = texts[r_["id"]]
         o = resolve(r_["out"], "yaml")
         samples.append({"id": r_["id"], "kind": r_["key"]["k"], "case": case_class(r_["key"], base),
                         "all_renderings_identical": all(r_["out"][s].get("same") for s in STYLES[1:]),
@@ -306,6 +311,7 @@ def run(tier, v):
         "design_states": states, "trace_spec_states": tr.distinct,
         "traces_validated_against_impl": len(rows),
         "renderings_validated": nrend, "renderings_by_style": dict(by_style),
+        "renderings_by_file_system_read_mode": dict(by_fs),
         "exhaustive": True, "evaluations": nrend, "distinct_nontrivial": distinct,
         "rule": "one case per key of ScenarioConfig!Cases (flag groups fully, flag pairs fully, single string and number "
                 "substitutions); each rendered 4 ways and run through ReadAmmoConfig and the registered provider; "
